@@ -36,7 +36,7 @@ ASSUMPTIONS = [
     "path components are matched case-sensitively",
 ]
 BUDGET = {"quick": (200, 4), "thorough": (64000, 16)}
-REQUIRED = ["glob", "dir_pattern", "basename", "relpath_pattern", "ii_file", "nested", "child_after_parent", "x_file_and_dir", "multi_generation", "duplicate_pattern", "verify_dh", "sf_generation", "real_missing_next_to_excluded", "blank_in_pattern_file_line", "cli_pattern_on_verify_dh"]
+REQUIRED = ["glob", "dir_pattern", "basename", "relpath_pattern", "ii_file", "nested", "child_after_parent", "x_file_and_dir", "multi_generation", "duplicate_pattern", "verify_dh", "sf_generation", "real_missing_next_to_excluded", "blank_in_pattern_file_line", "cli_pattern_on_verify_dh", "nested_history_folder_removed"]
 
 DEFAULTS = [".DS_Store", "ascmhl", "ascmhl/"]
 _first = "abcdefghijklmnopqrstuvwxyzABCDEFGHIJKLMNOPQRSTUVWXYZ0123456789_."
@@ -373,6 +373,23 @@ def run_case(scn, ctx):
                         require(len(extra_lines) == int(m.group(1)), "missing-listing", "%s announces %s missing file(s) but lists %r" % (cmd, m.group(1), extra_lines), res)
                 require(block == {victim[2:]}, "missing-listing", "%s lists %r as missing; only %r is missing and not excluded (patterns %r)" % (cmd, block, victim[2:], eff), res)
             feats.add("real_missing_next_to_excluded")
+        # the folder of the nested history disappears altogether and the parent is sealed again with one more pattern: the
+        # run ends with exit 10 (the child is missing) and still neither hashes nor records anything that is excluded
+        child = scn["child"]
+        if child and "R/" + child in w.history_roots() and any(x["path"].startswith(child + "/") for x in w.read_history("R")[-1][2]["references"]):
+            w.rmtree("R/" + child)
+            w.put("R/late_ignored.zzz", "matches only the newest pattern")
+            nb = len(w.manifests("R"))
+            res = w.create("R", ["md5"], extra=["-i", "*.zzz"])
+            require(res.exc is None and res.exit_code == 10, "child-gone", "create after the nested history folder %r was removed: %s" % (child, res.brief()), res)
+            ms = w.read_history("R")
+            require(len(ms) == nb + 1, "child-gone", "no generation written by the exit-10 run", res)
+            now = eff + ["*.zzz"]
+            for r in ms[-1][2]["records"]:
+                require(not matches(r["path"], now), "x-recorded", "the generation written after the nested history %r was removed records %r which patterns %r exclude" % (child, r["path"], now), res)
+            require(ms[-1][2]["patterns"] == expected_list(ms[-2][2]["patterns"], ["*.zzz"]), "accumulate", "patterns after the exit-10 run: %r" % ms[-1][2]["patterns"], res)
+            require("hash mismatch" not in res.output, "x-hashed", "an excluded (edited) file was hashed: %s" % res.output[-300:], res)
+            feats.add("nested_history_folder_removed")
         allp = [p for g in scn["gens"] for p in g["i"] + g["ii"]]
         if any("*" in p or "?" in p for p in allp):
             feats.add("glob")
